@@ -210,7 +210,14 @@ class MetadataManager:
                             # very version the validation above was made against: a
                             # commit landing between the two reads would otherwise
                             # be overwritten with a matching ETag.
-                            if validated_info is not None and previous_metadata_file != validated_info[1]:
+                            # (A hint naming a file that does not exist is not a
+                            # version: validation then used recovery-by-scanning,
+                            # and so does the version lookup below.)
+                            if (
+                                validated_info is not None
+                                and previous_metadata_file != validated_info[1]
+                                and self.storage.exists(f"{self.metadata_path}/{previous_metadata_file}")
+                            ):
                                 raise ConcurrentModificationException(
                                     "Version hint changed between validation and the "
                                     "conditional write; retrying"
